@@ -94,10 +94,20 @@ def run_in_child(root, prog, argv, *, tag='driver', fault=None,
             rc = bfg9000.driver.simple_main()
         else:
             rc = bfg9000.driver.main()
-        status = rc or 0
+        # console scripts do sys.exit(main()): None/0 -> 0, an int -> itself,
+        # anything else is printed to stderr and becomes status 1
+        if rc is None:
+            status = 0
+        elif isinstance(rc, int):
+            status = rc
+        else:
+            sys.stderr.write(str(rc) + '\n')
+            status = 1
         outcome = 'ok' if status == 0 else 'error'
     except SystemExit as e:
         code = e.code
+        if not isinstance(code, int) and code is not None:
+            sys.stderr.write(str(code) + '\n')
         status = code if isinstance(code, int) else (0 if code is None else 1)
         outcome = 'ok' if status == 0 else 'error'
     except BaseException as e:   # noqa
